@@ -8,6 +8,7 @@ import (
 	"github.com/ChrisTrenkamp/xsel/grammar/parser/bsr"
 	"github.com/ChrisTrenkamp/xsel/grammar/parser/symbols"
 	"github.com/ChrisTrenkamp/xsel/node"
+	"github.com/ChrisTrenkamp/xsel/store"
 )
 
 var errQueryNonNodeset = fmt.Errorf("cannot query nodes on non-NodeSet's")
@@ -41,6 +42,23 @@ func init() {
 	contextFunctions[symbols.NT_AbbreviatedAxisSpecifier] = execAbbreviatedAxisSpecifier
 	contextFunctions[symbols.NT_AbbreviatedAbsoluteLocationPath] = execAbbreviatedAbsoluteLocationPath
 	contextFunctions[symbols.NT_AbbreviatedRelativeLocationPath] = execAbbreviatedRelativeLocationPath
+}
+
+// isPrincipalNodeType reports whether the node has the principal node type of
+// the axis of the step being evaluated: attribute for the attribute axis,
+// namespace for the namespace axis, element for every other axis.  Name tests
+// only select nodes of the principal node type.
+func isPrincipalNodeType(context *exprContext, cursor store.Cursor) bool {
+	switch cursor.Node().(type) {
+	case node.Namespace:
+		return context.principalNodeType == namespaceNodeType
+	case node.Attribute:
+		return context.principalNodeType == attributeNodeType
+	case node.Element:
+		return context.principalNodeType == elementNodeType
+	}
+
+	return false
 }
 
 func execAbsoluteLocationPathOnly(context *exprContext, expr *grammar.Grammar) error {
@@ -86,6 +104,7 @@ func execStep(context *exprContext, expr *grammar.Grammar) error {
 		}
 
 		context.result = selectChild(nodeSet)
+		context.principalNodeType = elementNodeType
 	}
 
 	return execContext(context, expr.Next(nextBsr))
@@ -204,11 +223,7 @@ func execNameTestAnyElement(context *exprContext, expr *grammar.Grammar) error {
 	result := make(NodeSet, 0)
 
 	for _, i := range nodeSet {
-		if _, ok := i.Node().(node.NamedNode); ok {
-			result = append(result, i)
-		}
-
-		if _, ok := i.Node().(node.Namespace); ok {
+		if isPrincipalNodeType(context, i) {
 			result = append(result, i)
 		}
 	}
@@ -252,7 +267,7 @@ func nameTestNamespaceAnyLocal(namespaceLookup string, context *exprContext, exp
 	result := make(NodeSet, 0)
 
 	for _, i := range nodeSet {
-		if node, ok := i.Node().(node.NamedNode); ok {
+		if node, ok := i.Node().(node.NamedNode); ok && isPrincipalNodeType(context, i) {
 			if node.Space() == namespaceValue {
 				result = append(result, i)
 			}
@@ -293,7 +308,7 @@ func nameTestLocalAnyNamespace(localValue string, context *exprContext, expr *gr
 	result := make(NodeSet, 0)
 
 	for _, i := range nodeSet {
-		if node, ok := i.Node().(node.NamedNode); ok {
+		if node, ok := i.Node().(node.NamedNode); ok && isPrincipalNodeType(context, i) {
 			if node.Local() == localValue {
 				result = append(result, i)
 			}
@@ -372,7 +387,7 @@ func nameTestQNameNamespaceWithLocal(namespaceLookup, local string, context *exp
 	result := make(NodeSet, 0)
 
 	for _, i := range nodeSet {
-		if node, ok := i.Node().(node.NamedNode); ok {
+		if node, ok := i.Node().(node.NamedNode); ok && isPrincipalNodeType(context, i) {
 			if node.Local() == local && node.Space() == namespaceValue {
 				result = append(result, i)
 			}
@@ -394,13 +409,13 @@ func execNameTestQNameLocalOnly(context *exprContext, expr *grammar.Grammar) err
 	queryName := expr.GetString()
 
 	for _, child := range nodeSet {
-		if elem, ok := child.Node().(node.NamedNode); ok {
+		if elem, ok := child.Node().(node.NamedNode); ok && isPrincipalNodeType(context, child) {
 			if elem.Space() == "" && elem.Local() == queryName {
 				nextResult = append(nextResult, child)
 			}
 		}
 
-		if ns, ok := child.Node().(node.Namespace); ok {
+		if ns, ok := child.Node().(node.Namespace); ok && context.principalNodeType == namespaceNodeType {
 			namespaceValue := context.NamespaceDecls[queryName]
 
 			if ns.NamespaceValue() == namespaceValue {
@@ -423,12 +438,14 @@ func execAxisName(context *exprContext, expr *grammar.Grammar) error {
 
 	axis := expr.GetString()
 	var result Result
+	context.principalNodeType = elementNodeType
 
 	switch axis {
 	case "child":
 		result = selectChild(nodeSet)
 	case "attribute":
 		result = selectAttributes(nodeSet)
+		context.principalNodeType = attributeNodeType
 	case "ancestor":
 		result = selectAncestor(nodeSet)
 	case "ancestor-or-self":
@@ -443,6 +460,7 @@ func execAxisName(context *exprContext, expr *grammar.Grammar) error {
 		result = selectFollowingSibling(nodeSet)
 	case "namespace":
 		result = selectNamespace(nodeSet)
+		context.principalNodeType = namespaceNodeType
 	case "parent":
 		result = selectParent(nodeSet)
 	case "preceding":
@@ -477,6 +495,7 @@ func execAbbreviatedAxisSpecifier(context *exprContext, expr *grammar.Grammar) e
 	}
 
 	context.result = selectAttributes(nodeSet)
+	context.principalNodeType = attributeNodeType
 	return nil
 }
 
